@@ -56,7 +56,8 @@ func EndBlocker(ctx sdk.Context, k keeper.Keeper) {
 	// threshold = total power * params.VoteThreshold (0.5 by default)
 	totalBondedPower := sdk.TokensToConsensusPower(k.StakingKeeper.TotalBondedTokens(ctx), k.StakingKeeper.PowerReduction(ctx))
 	voteThreshold := params.VoteThreshold
-	thresholdVotes := voteThreshold.MulInt64(totalBondedPower).RoundInt()
+	// round up: RoundInt is banker's rounding and can fall below the configured share of the power
+	thresholdVotes := voteThreshold.MulInt64(totalBondedPower).Ceil().TruncateInt()
 
 	// Get all aggregate votes
 	aggregateVotes := k.GetAggregateVotes(ctx)
